@@ -81,6 +81,16 @@ func main() {
 		c11.RaceBody(n)
 		return
 	}
+	if id == "C17RACE" {
+		n, _ := strconv.Atoi(os.Args[2])
+		seed, _ := strconv.ParseInt(os.Args[3], 10, 64)
+		c17.RaceBody(n, seed)
+		return
+	}
+	if id == "C02COLD" {
+		c02.ColdStartBody()
+		return
+	}
 	if id == "C02RACE" {
 		n, _ := strconv.Atoi(os.Args[2])
 		c02.RaceBody(n)
